@@ -13,6 +13,7 @@ pub mod files_world;
 pub mod gen;
 pub mod leak_world;
 pub mod server_world;
+pub mod srvmerge_world;
 pub mod summary;
 pub mod sync_world;
 pub mod term;
